@@ -238,4 +238,9 @@ EXPLANATION = (
     'condition): both delivery overrides deliver each pending item once and clear the map. Not decided: alternation and equality '
     'with the cache over all histories [X].'
 )
+EXPLANATION_ADDENDUM = (
+    ' C04.EXPIRY (necessary): the purge report reaches every listener (what is handed to the per-listener loop is re-iterable). C04.PREVIOUS also requires one (new, previous) pair per datagram record (a list, not a store keyed by record identity).'
+)
+EXPLANATION = EXPLANATION + EXPLANATION_ADDENDUM
+
 RULES = [aftercache, previous, expiry, precedence, classify, flush]
